@@ -30,6 +30,20 @@ pub enum ICt {
     Infer(u32),
     Ph(usize, usize),
     Val(u32),
+    /// a concrete value whose *type* is not plain `usize` but one of a few closed types (see `const_ty`); no bound
+    /// variables inside, so shifting and substitution leave it alone
+    Typed(u8, u32),
+}
+
+/// The closed types a `ICt::Typed` constant can have.
+pub fn const_ty(code: u8) -> ITy {
+    match code % 5 {
+        0 => ITy::Ref(false, ILt::Static, Box::new(ITy::Scalar(1))),
+        1 => ITy::Ph(1, 0),
+        2 => ITy::Error,
+        3 => ITy::Ref(true, ILt::Erased, Box::new(ITy::Scalar(0))),
+        _ => ITy::Raw(false, Box::new(ITy::Ref(false, ILt::Ph(1, 1), Box::new(ITy::Str)))),
+    }
 }
 
 #[derive(Clone, PartialEq, Eq, Debug)]
@@ -165,6 +179,7 @@ pub fn gen_ct(r: &mut Rng, cx: &GenCtx) -> ICt {
         },
         2 if cx.allow_infer => ICt::Infer(r.below(4) as u32),
         3 => ICt::Ph(r.below(4), r.below(3)),
+        4 => ICt::Typed(r.below(5) as u8, r.below(5) as u32),
         _ => ICt::Val(r.below(5) as u32),
     }
 }
@@ -335,6 +350,7 @@ pub fn ct_c(c: &ICt) -> Const<I> {
         ICt::Infer(v) => ConstValue::InferenceVar(InferenceVar::from(*v)),
         ICt::Ph(u, k) => ConstValue::Placeholder(ph(*u, *k)),
         ICt::Val(n) => ConstValue::Concrete(ConcreteConst { interned: *n }),
+        ICt::Typed(code, n) => return ConstData { ty: ty_c(&const_ty(*code)), value: ConstValue::Concrete(ConcreteConst { interned: *n }) }.intern(i),
     };
     ConstData { ty: usize_ty(), value }.intern(i)
 }
@@ -611,6 +627,8 @@ pub fn ref_flags_ct(c: &ICt) -> TypeFlags {
     match c {
         ICt::Infer(_) => TypeFlags::HAS_CT_INFER,
         ICt::Ph(..) => TypeFlags::HAS_CT_PLACEHOLDER,
+        // whatever occurs inside the constant's type occurs inside the enclosing type
+        ICt::Typed(code, _) => ref_flags(&const_ty(*code)),
         _ => TypeFlags::empty(),
     }
 }
